@@ -295,6 +295,7 @@ def twin_specs(pid, tier, seed):
         for i in range(reps): T.append(("c03e_%d" % i, twins.twin_c03(seed * 1000 + 500 + i, 6000 if q else 40000, style="early"), "u", "u"))
     elif pid == "C13":
         for i in range(reps * 4): T.append(("c13_%d" % i, twins.twin_c13(seed * 1000 + i, 300 + 200 * (i % 5), 1500 if q else 6000), "u", "u"))
+        for k in range(48): T.append(("c13edge_%d" % k, twins.twin_c13_edge(k), "u", "u"))
     elif pid == "C14":
         for i in range(reps): T.append(("c14_%d" % i, twins.twin_c14(seed * 1000 + i, 5000 if q else 40000), "u", "u"))
     elif pid == "C15":
